@@ -180,6 +180,30 @@ def crash_key(exc, tb=None):
     return '%s@%s' % (type(exc).__name__, '<'.join(reversed(tail)))
 
 
+def replay(run, ctx):
+    """./check <ID> --replay <file>: show the recorded case and re-run the check with the recorded seed and tier;
+    exit 1 iff a violation of the same shape key is found again (checks with a `replay` function of their own
+    re-run exactly the recorded case)."""
+    data = ctx.replay
+    print('REPLAY property=%s key=%s' % (data.get('property'), data.get('key')))
+    print(json.dumps(data.get('replay'), indent=1, default=str)[:6000])
+    import importlib
+    mod = importlib.import_module('harness.props.%s' % ctx.prop.lower())
+    if hasattr(mod, 'replay'):
+        return mod.replay(ctx, data)
+    ctx.seed = int(data.get('seed', ctx.seed))
+    ctx.rng = random.Random(ctx.seed)
+    ctx.tier = data.get('tier', ctx.tier)
+    ctx.quick = ctx.tier == 'quick'
+    rc = run(ctx)
+    if rc is not None:
+        return rc            # the check handled the replay itself
+    ctx.finish()
+    again = [v for v in ctx.violations if v[0] == data.get('key')]
+    print('REPLAY-RESULT key=%s reproduced=%s' % (data.get('key'), bool(again)))
+    return 1 if again else 0
+
+
 def main(run, prop):
     import argparse
     ap = argparse.ArgumentParser()
@@ -195,9 +219,12 @@ def main(run, prop):
                 ctx.replay = json.load(f)
         else:
             ctx.replay = None
-        rc = run(ctx)
-        if rc is None:
-            rc = ctx.finish()
+        if ctx.replay is not None:
+            rc = replay(run, ctx)
+        else:
+            rc = run(ctx)
+            if rc is None:
+                rc = ctx.finish()
         sys.stdout.flush()
         os._exit(rc) if False else sys.exit(rc)
     except MachineryError as e:
